@@ -95,6 +95,39 @@ Theorem c02_parsed_bodies_never_panic_the_emitter :
 Proof. exact parsed_emit_no_panic. Qed.
 
 
+(* the STRUCTURAL half of "the output validates": the emitted stream of a parsed module has again every guarantee the model asks of a
+   validator-accepted stream (section order, index bounds in every section, constant-expression forms, counts, structured bodies with indices in
+   range) - so it can be parsed and emitted again (C08) *)
+From WV Require Import Proofs.ParseTotal Proofs.EmitValid.
+Theorem c02_emitted_stream_has_the_validator_guarantees : forall cf ver w s1 ilen e1,
+  valid_stream w -> parseM cf ver w = POk s1 -> emitM (ps_m s1) ilen [] = Ok e1 -> valid_stream (em_secs e1).
+Proof. exact emitted_stream_valid. Qed.
+
+(* the control skeleton of the GC pass in the SOURCE (regenerated), including its declaration step: what counts as a declaration of a `ref.func`
+   target (exports, element segments, global initialisers - not the start section) *)
+From WV Require Import Gen.GcSkeleton Proofs.GcPinned.
+Theorem c02_gc_source_skeleton : used_new_skeleton = expected_used_new /\ used_visitor_skeleton = expected_used_visitor /\ gc_run_skeleton = expected_gc_run /\ gc_declare_skeleton = expected_gc_declare.
+Proof. exact used_skeleton_pinned. Qed.
+
+(* the same after the GC pass: the emitted stream of the collected module has every guarantee of a validator-accepted stream (no clause excluded),
+   and can be parsed again *)
+From WV Require Import Proofs.EmitValidGc.
+Theorem c02_emitted_stream_after_gc_has_the_validator_guarantees :
+  forall (cf : config) (ver : str) (w : wmod) (s : pst) (m' : wir) (ilen : IR.wins -> N) (e : emitted),
+         valid_stream w ->
+         parseM cf ver w = POk s -> gc (ps_m s) = Ok m' -> emitM m' ilen [] = Ok e -> valid_stream (em_secs e).
+Proof. exact emitted_stream_valid_after_gc. Qed.
+
+Theorem c02_gc_output_reparses :
+  forall (cf : config) (ver : str) (w : wmod) (s : pst) (m' : wir) (ilen : IR.wins -> N) 
+           (e : emitted) (cf2 : config) (ver2 : str),
+         valid_stream w ->
+         parseM cf ver w = POk s ->
+         gc (ps_m s) = Ok m' ->
+         emitM m' ilen [] = Ok e -> exists s2 : pst, parseM cf2 ver2 (em_secs e) = POk s2.
+Proof. exact gc_output_reparses. Qed.
+
+
 Print Assumptions c02_parsed_module_closed.
 Print Assumptions c02_gc_keeps_closed.
 Print Assumptions c02_closed_means_every_reference_indexed.
@@ -107,3 +140,7 @@ Print Assumptions c02_emit_total_after_parse_no_body_premise.
 Print Assumptions c02_emit_total_after_gc_no_body_premise.
 Print Assumptions c02_index_bounds_needed.
 Print Assumptions c02_parsed_bodies_never_panic_the_emitter.
+Print Assumptions c02_emitted_stream_has_the_validator_guarantees.
+Print Assumptions c02_gc_source_skeleton.
+Print Assumptions c02_emitted_stream_after_gc_has_the_validator_guarantees.
+Print Assumptions c02_gc_output_reparses.
